@@ -18,7 +18,7 @@ RULE = (
     "Hypothesis generates pipeline specs (any subset of the ten groups, None/empty/1..3 models per group, enabled "
     "True/False/omitted, arbitrary nested argument dicts), 1..4 readout steps, rendering (Python objects | YAML with "
     "permuted keys) and mode (exposure debug off/on, sequential observation, dask observation, calibration); every model "
-    "is a tracing probe and the observed call list must equal the reference list exactly. Plus an exhaustive enumeration "
+    "is a tracing probe (a third of them with declared parameters that have defaults, configured with None / falsy / other values) and the observed call list must equal the reference list exactly. Plus an exhaustive enumeration "
     "of all 45 group pairs x 3 enabled patterns x 2 renderings. Non-trivial: >=2 populated groups and (a disabled model or "
     ">=2 models in one group or >=2 steps); distinct = canonical JSON of the case."
 )
@@ -43,6 +43,15 @@ def cases(draw, modes=("exposure", "exposure", "exposure_debug", "obs_seq", "obs
         "det_type": draw(st.sampled_from(["CCD", "CMOS", "MKID", "APD"])),
         "non_destructive": draw(st.booleans()),
     }
+    for ms in spec["groups"].values():
+        for m in ms or []:
+            if draw(st.sampled_from([False, False, True])):
+                # a model whose parameters are declared with default values, every one of them configured - with None, falsy and other values:
+                # the model must receive exactly what was configured, never its own default
+                val = st.sampled_from([None, None, 0, 0.0, False, "", 1.5, "abc", [1, None], {"a": None}])
+                m["func"] = "vprobes.models.trace_sig"
+                m["arguments"] = {"gain": draw(val), "offset": draw(val), "label": draw(val), "flag": draw(val), "opt": draw(val), "tag": m["name"]}
+                case["has_declared_defaults"] = True
     entries = [(g, m) for g, ms in spec["groups"].items() if ms for m in ms]
     if entries and draw(st.sampled_from([False, False, True])):
         # the same model entry listed again in another group; in the YAML rendering it is written once and referred to by an alias (&id / *id)
@@ -106,6 +115,8 @@ def body(case, rec):
     rec.cls(f"mode:{mode}", f"render:{case['render']}", f"steps:{steps}")
     if case.get("has_aliased_entry"):
         rec.cls("yaml_alias" if case["render"] == "yaml" else "repeated_entry_python")
+    if case.get("has_declared_defaults"):
+        rec.cls("model_with_declared_defaults_configured_with_none_or_falsy_values")
     rec.nt(_nontrivial(case))
     ref = _strip(reference_calls(spec, steps))
     if any(mm.get("enabled") is False for m in spec["groups"].values() if m for mm in m):
